@@ -41,14 +41,16 @@ def run(ctx, intensify=False):
     rng.shuffle(jobs)
     n = ctx.nproc
     outs = ctx.pmap(bo.shard, [(ctx.seed * 1000 + i, jobs[i::n]) for i in range(n) if jobs[i::n]])
-    cases, builders = 0, {}
+    cases, builders, dis, corr = 0, {}, [], 0
     for o in outs:
+        dis += o["disagreements"]
+        corr += o["corr"]
         res.violations += o["violations"]
         cases += o["cases"]
         res.samples += o["samples"]
         for k_, v in o["builders"].items():
             builders[k_] = builders.get(k_, 0) + v
-    res.suites.append({"name": "K-builders", "cases": cases, "observations": cases, "disagreements": [], "inconclusive": 0,
+    res.suites.append({"name": "K-builders", "cases": corr, "observations": cases, "disagreements": dis, "inconclusive": 0,
                        "distribution": {"builders": builders, "choices_available": {"video": len(video), "web": len(web), "genai": len(genai), "cloud": len(cloud)},
                                         "all_choices_enumerated": exhaustive}})
     res.evaluations = cases
